@@ -870,30 +870,30 @@ theorem findTrailers_nil : findTrailers true [] = .done 0 := rfl
 
 /-- all of `frames ++ trailers frame` is buffered: the frames go out (if any), the trailers
 are stored, nothing stays behind -/
-theorem afterPoll_whole (eof : Bool) (sp : Bool) (ps : List Pair)
-    (out : List Pair) (hdec : decodeTrailersFrame true (trailersFrame sp ps) = some (some out))
-    (hb : (trailersBlock sp ps).length < 4294967296)
+theorem afterPoll_whole (eof : Bool) (blk : Bytes)
+    (out : List Pair) (hdec : decodeTrailersFrame true (rawFrame 128 blk) = some (some out))
+    (hb : blk.length < 4294967296)
     (fs : List (Bool × Bytes)) (hfs : ∀ f ∈ fs, f.2.length < 4294967296) :
-    afterPoll eof { decoded := framesBytes fs ++ trailersFrame sp ps, trailers := none } =
+    afterPoll eof { decoded := framesBytes fs ++ rawFrame 128 blk, trailers := none } =
       if (framesBytes fs).length > 0
       then .emit (.data (framesBytes fs)) { decoded := [], trailers := some out }
       else .again { decoded := [], trailers := some out } := by
-  have hscan : findTrailers true (framesBytes fs ++ trailersFrame sp ps) =
+  have hscan : findTrailers true (framesBytes fs ++ rawFrame 128 blk) =
       .trailer (framesBytes fs).length :=
-    (scan_prefix _ hb fs hfs _ [] _ (Nat.le_refl _) (by simp [trailersFrame])).1 rfl
-  have hdrop : (framesBytes fs ++ trailersFrame sp ps).drop (framesBytes fs).length =
-      trailersFrame sp ps := List.drop_left' rfl
-  have htake : (framesBytes fs ++ trailersFrame sp ps).take (framesBytes fs).length =
+    (scan_prefix _ hb fs hfs _ [] _ (Nat.le_refl _) (by simp)).1 rfl
+  have hdrop : (framesBytes fs ++ rawFrame 128 blk).drop (framesBytes fs).length =
+      rawFrame 128 blk := List.drop_left' rfl
+  have htake : (framesBytes fs ++ rawFrame 128 blk).take (framesBytes fs).length =
       framesBytes fs := List.take_left' rfl
-  have hh : hdr5 (trailersFrame sp ps) =
-      some (128, (trailersBlock sp ps).length, trailersBlock sp ps) := by
-    have := hdr5_raw 128 (trailersBlock sp ps) [] hb
-    simpa [trailersFrame] using this
-  have hlenT : (trailersFrame sp ps).length = 5 + (trailersBlock sp ps).length := by
-    rw [trailersFrame, rawFrame_length]; omega
-  have htakeT : (trailersFrame sp ps).take (5 + (trailersBlock sp ps).length) = trailersFrame sp ps := by
+  have hh : hdr5 (rawFrame 128 blk) =
+      some (128, (blk).length, blk) := by
+    have := hdr5_raw 128 blk [] hb
+    simpa using this
+  have hlenT : (rawFrame 128 blk).length = 5 + (blk).length := by
+    rw [rawFrame_length]; omega
+  have htakeT : (rawFrame 128 blk).take (5 + (blk).length) = rawFrame 128 blk := by
     rw [← hlenT]; exact List.take_length
-  have hdropT : (trailersFrame sp ps).drop (5 + (trailersBlock sp ps).length) = [] := by
+  have hdropT : (rawFrame 128 blk).drop (5 + (blk).length) = [] := by
     rw [← hlenT]; exact List.drop_length
   simp only [afterPoll, hscan, onTrailer, hdrop, hh, htakeT, hdec,
     hdropT, htake, mergeOpt, mergeTrailers]
@@ -941,12 +941,12 @@ theorem run_after_trailers (ps : List Pair) : ∀ (chunks : List Bytes), chunks.
 /-- **Run invariant on a valid stream**: whatever part `D` of `frames ++ trailers frame` is
 buffered and however the rest is cut into chunks, the caller gets data frames carrying
 exactly the message frames, then the trailers, then the end. -/
-theorem run_valid (sp : Bool) (ps : List Pair)
-    (out : List Pair) (hdec : decodeTrailersFrame true (trailersFrame sp ps) = some (some out))
-    (hb : (trailersBlock sp ps).length < 4294967296) :
+theorem run_valid (blk : Bytes)
+    (out : List Pair) (hdec : decodeTrailersFrame true (rawFrame 128 blk) = some (some out))
+    (hb : (blk).length < 4294967296) :
     ∀ (chunks : List Bytes) (fs : List (Bool × Bytes)) (D : Bytes),
       (∀ f ∈ fs, f.2.length < 4294967296) →
-      D ++ chunks.flatten = framesBytes fs ++ trailersFrame sp ps →
+      D ++ chunks.flatten = framesBytes fs ++ rawFrame 128 blk →
       ∃ datas : List Bytes,
         run { decoded := D, trailers := none } (chunks.map BodyEv.data) =
           datas.map Out.data ++ [.trailers out, .eos] ∧
@@ -957,12 +957,12 @@ theorem run_valid (sp : Bool) (ps : List Pair)
     intro fs D hfs hD
     simp only [List.flatten_nil, List.append_nil] at hD
     subst hD
-    have hstep := afterPoll_whole true sp ps out hdec hb fs hfs
+    have hstep := afterPoll_whole true blk out hdec hb fs hfs
     have hfin : drain 2 { decoded := [], trailers := some out } = [.trailers out, .eos] := by
       simp only [drain, afterPoll, findTrailers_nil, if_true, onExhausted, Bool.not_true,
         Bool.false_eq_true, if_false, List.isEmpty_nil]
-    obtain ⟨k, hk⟩ : ∃ k, (framesBytes fs ++ trailersFrame sp ps).length + 3 = (k + 2) + 1 :=
-      ⟨(framesBytes fs ++ trailersFrame sp ps).length, by omega⟩
+    obtain ⟨k, hk⟩ : ∃ k, (framesBytes fs ++ rawFrame 128 blk).length + 3 = (k + 2) + 1 :=
+      ⟨(framesBytes fs ++ rawFrame 128 blk).length, by omega⟩
     simp only [List.map_nil, run, hk]
     rw [drain, hstep]
     have hfin' : ∀ k, drain (k + 2) { decoded := [], trailers := some out } = [.trailers out, .eos] := by
@@ -981,15 +981,15 @@ theorem run_valid (sp : Bool) (ps : List Pair)
   | cons c cs ih =>
     intro fs D hfs hD
     simp only [List.flatten_cons] at hD
-    have hD1 : (D ++ c) ++ cs.flatten = framesBytes fs ++ trailersFrame sp ps := by
+    have hD1 : (D ++ c) ++ cs.flatten = framesBytes fs ++ rawFrame 128 blk := by
       rw [List.append_assoc]; exact hD
     simp only [List.map_cons, run]
     obtain ⟨hA, hB⟩ := scan_prefix _ hb fs hfs (D ++ c) cs.flatten ((D ++ c).length + 1)
-      (Nat.le_refl _) (by simpa [trailersFrame] using hD1)
+      (Nat.le_refl _) hD1
     by_cases hX : cs.flatten = []
     · -- everything has arrived
-      have hDc : D ++ c = framesBytes fs ++ trailersFrame sp ps := by simpa [hX] using hD1
-      rw [hDc, afterPoll_whole false sp ps out hdec hb fs hfs]
+      have hDc : D ++ c = framesBytes fs ++ rawFrame 128 blk := by simpa [hX] using hD1
+      rw [hDc, afterPoll_whole false blk out hdec hb fs hfs]
       by_cases hl : (framesBytes fs).length > 0
       · simp only [hl, if_true, run_after_trailers out cs hX]
         exact ⟨[framesBytes fs], by simp, by simp⟩
@@ -1012,7 +1012,7 @@ theorem run_valid (sp : Bool) (ps : List Pair)
             rw [e2]; exact List.take_left' rfl
           have hdrop : (D ++ c).drop (framesBytes fs1).length = P := by
             rw [e2]; exact List.drop_left' rfl
-          have hP : P ++ cs.flatten = framesBytes fs2 ++ trailersFrame sp ps := by
+          have hP : P ++ cs.flatten = framesBytes fs2 ++ rawFrame 128 blk := by
             have := hD1
             rw [e2, e1, framesBytes_append, List.append_assoc, List.append_assoc] at this
             exact List.append_cancel_left this
@@ -1021,6 +1021,80 @@ theorem run_valid (sp : Bool) (ps : List Pair)
           obtain ⟨datas, hr, hf⟩ := ih fs2 P hfs2 hP
           rw [htake, hdrop, hr]
           exact ⟨framesBytes fs1 :: datas, by simp, by simp [hf, e1, framesBytes_append]⟩
+
+/-- all of `frames ++ trailers frame` is buffered and the trailers block does not decode: the
+error is returned (the frames in front are not handed out) -/
+theorem afterPoll_whole_bad (eof : Bool) (blk : Bytes)
+    (hdec : decodeTrailersFrame true (rawFrame 128 blk) = none)
+    (hb : blk.length < 4294967296)
+    (fs : List (Bool × Bytes)) (hfs : ∀ f ∈ fs, f.2.length < 4294967296) :
+    afterPoll eof { decoded := framesBytes fs ++ rawFrame 128 blk, trailers := none } =
+      .stop [.err] := by
+  have hscan : findTrailers true (framesBytes fs ++ rawFrame 128 blk) =
+      .trailer (framesBytes fs).length :=
+    (scan_prefix _ hb fs hfs _ [] _ (Nat.le_refl _) (by simp)).1 rfl
+  have hdrop : (framesBytes fs ++ rawFrame 128 blk).drop (framesBytes fs).length =
+      rawFrame 128 blk := List.drop_left' rfl
+  have hh : hdr5 (rawFrame 128 blk) = some (128, blk.length, blk) := by
+    have := hdr5_raw 128 blk [] hb
+    simpa using this
+  have hlenT : (rawFrame 128 blk).length = 5 + blk.length := by
+    rw [rawFrame_length]; omega
+  have htakeT : (rawFrame 128 blk).take (5 + blk.length) = rawFrame 128 blk := by
+    rw [← hlenT]; exact List.take_length
+  simp only [afterPoll, hscan, onTrailer, hdrop, hh, htakeT, hdec]
+
+/-- **A trailers block that does not decode ends the stream in an error**, whatever part of
+`frames ++ trailers frame` is buffered and however the rest is chunked. -/
+theorem run_bad_block (blk : Bytes)
+    (hdec : decodeTrailersFrame true (rawFrame 128 blk) = none)
+    (hb : blk.length < 4294967296) :
+    ∀ (chunks : List Bytes) (fs : List (Bool × Bytes)) (D : Bytes),
+      (∀ f ∈ fs, f.2.length < 4294967296) →
+      D ++ chunks.flatten = framesBytes fs ++ rawFrame 128 blk →
+      (run { decoded := D, trailers := none } (chunks.map BodyEv.data)).getLast? = some .err := by
+  intro chunks
+  induction chunks with
+  | nil =>
+    intro fs D hfs hD
+    simp only [List.flatten_nil, List.append_nil] at hD
+    subst hD
+    obtain ⟨k, hk⟩ : ∃ k, (framesBytes fs ++ rawFrame 128 blk).length + 3 = k + 1 :=
+      ⟨(framesBytes fs ++ rawFrame 128 blk).length + 2, by omega⟩
+    simp only [List.map_nil, run, hk]
+    rw [drain, afterPoll_whole_bad true blk hdec hb fs hfs]
+    rfl
+  | cons c cs ih =>
+    intro fs D hfs hD
+    simp only [List.flatten_cons] at hD
+    have hD1 : (D ++ c) ++ cs.flatten = framesBytes fs ++ rawFrame 128 blk := by
+      rw [List.append_assoc]; exact hD
+    simp only [List.map_cons, run]
+    obtain ⟨hA, hB⟩ := scan_prefix _ hb fs hfs (D ++ c) cs.flatten ((D ++ c).length + 1)
+      (Nat.le_refl _) hD1
+    by_cases hX : cs.flatten = []
+    · have hDc : D ++ c = framesBytes fs ++ rawFrame 128 blk := by simpa [hX] using hD1
+      rw [hDc, afterPoll_whole_bad false blk hdec hb fs hfs]
+      rfl
+    · rcases hB hX with hinc | ⟨fs1, fs2, P, e1, e2, e3⟩
+      · rw [afterPoll_incomplete (st := { decoded := D ++ c, trailers := none }) hinc]
+        simp only [Bool.false_eq_true, if_false]
+        exact ih fs (D ++ c) hfs hD1
+      · rw [afterPoll_done (st := { decoded := D ++ c, trailers := none }) e3]
+        by_cases hl : (framesBytes fs1).length = 0
+        · simp only [hl, if_true, onExhausted, Bool.not_false]
+          exact ih fs (D ++ c) hfs hD1
+        · simp only [hl, if_false]
+          have hdrop : (D ++ c).drop (framesBytes fs1).length = P := by
+            rw [e2]; exact List.drop_left' rfl
+          have hP : P ++ cs.flatten = framesBytes fs2 ++ rawFrame 128 blk := by
+            have := hD1
+            rw [e2, e1, framesBytes_append, List.append_assoc, List.append_assoc] at this
+            exact List.append_cancel_left this
+          have hfs2 : ∀ f ∈ fs2, f.2.length < 4294967296 :=
+            fun f hf => hfs f (by rw [e1]; exact List.mem_append_right _ hf)
+          rw [hdrop, getLast_cons_ne_nil _ _ (run_ne_nil _ _)]
+          exact ih fs2 P hfs2 hP
 
 /-! ### `frameStructure` decides `WellFramed` -/
 
